@@ -24,6 +24,8 @@ def appendHandlersCopies : Bool := true
 def cbFacts : EinoV.C09.Cb.Facts := ⟨graphHandlersCollectCopies, nodeHandlersCollectCopies, appendHandlersCopies⟩
 def runPathSharedSync : List String := []
 def sharedSyncOnRunPath : Bool := !runPathSharedSync.isEmpty
+def compiledObjectSync : List String := []
+def lockOnCompiledObject : Bool := !compiledObjectSync.isEmpty
 def runErrorsFresh : Bool := EinoV.C09.Err.freshOf storedRunErrors
 def alloc : EinoV.C09.Alloc :=
   EinoV.C09.allocOf runAllocsChannelManager channelsBuiltPerRun channelManagerFieldsFresh
